@@ -85,7 +85,8 @@ def _shard(k):
         if len(samples) < 2 and len(text) < 100 and lvl > 0:
             samples.append({'commands': [(KIND_NAME[t], h, d, area_debug(a)) for (t, h, d, a) in cmds], 'rendered': text})
     # (b) also arbitrary texts (the random strings of C04)
-    arb = [noise.random_text(rng, 60) for _ in range(per // 2)]
+    from .c04 import gen_text as _c04_text
+    arb = [(_c04_text(rng, 'quick')[1] if rng.random() < 0.5 else noise.random_text(rng, 60)) for _ in range(per // 2)]
     p1, outs1 = _run_parse(arb)
     for idx, t in enumerate(arb):
         if idx < len(outs1) and outs1[idx] != 'PANIC':
